@@ -505,7 +505,8 @@ func isMutation(call ssa.CallInstruction, mut map[*ssa.Function]bool) bool {
 		return true
 	}
 	if g := call.Common().StaticCallee(); g != nil && mut[g] {
-		return true
+		// a call of a new helper is not itself the mutation: the calls inside it are enumerated with its caller's
+		return newHelperCallee(call) == nil
 	}
 	return false
 }
